@@ -2,8 +2,9 @@
 C09 — every basis projection and operator equals its defining Abel integral.
 
 proofs : lean/PyAbel/Props/C09.lean (Daun degree 0 and the onion-peeling weights are, for all indices, the line-of-sight
-         integrals of the rectangular shells — Lemmas/Abel.lean `abel_shell`; Daun degree 1 entries are, for all indices, the
-         integrals of the hat functions — Lemmas/AbelRamp.lean `abel_ramp`, by the fundamental theorem of calculus)
+         integrals of the rectangular shells — Lemmas/Abel.lean `abel_shell`; Daun degree 1 and degree 2 entries are, for all
+         indices, the integrals of the hat functions / quadratic B-splines — Lemmas/AbelRamp.lean `abel_ramp`, `abel_qramp`, by the
+         fundamental theorem of calculus)
 K      : Lean matrices (onionW, twoPointD, threePointD, daun0, daun1, daun2) vs the arrays the implementation builds
          + through get_bs_cached after other requests (memory and disk): the arrays handed out are the generators' arrays
 S      : quadrature of the defining integral (scipy.integrate.quad on the smooth line-of-sight form
@@ -63,7 +64,8 @@ def oracle(ck, tier, deep):
                 f, rmax, brk = mk(j)
                 ck.count(("S.daun", deg, min(j, 3), min(i, 3), np.sign(j - i)), suite="S.daun")
                 want = abel_quad(f, float(i), rmax, brk)
-                if abs(A[j, i] - want) > 1e-9 * max(1.0, abs(want)):
+                # the coded closed forms cancel terms of size j^(deg+2): a few ulps of those is their rounding, not a formula error
+                if abs(A[j, i] - want) > 1e-9 * max(1.0, abs(want)) + 16 * 2.0 ** -53 * float(j + 1) ** (deg + 2):
                     ck.violation(dict(site="daun", degree=deg, clause="projection=abel-integral"), dict(n=n, degree=deg, j=j, i=i),
                                  f"daun degree {deg}: A[{j},{i}] = {A[j, i]:.12g}, Abel integral of the basis function = {want:.12g}")
         # degree 3: forward(data) = Abel of the clamped cubic Hermite spline through the data (zero slope at 0, n-1 and n)
@@ -77,7 +79,8 @@ def oracle(ck, tier, deep):
             for i in sorted({0, 1, n // 3, n - 2, n - 1, int(rng.integers(0, n))}):
                 ck.count(("S.daun", 3, min(i, 3)), suite="S.daun")
                 want = abel_quad(lambda r: spline(r), float(i), float(n), list(range(i + 1, n + 1)))
-                if abs(fwd[i] - want) > 1e-8 * max(1.0, np.abs(s).max() * n):
+                # degree 3 is ill-conditioned (finding F17): rounding noise grows like a power of n
+                if abs(fwd[i] - want) > 1e-8 * max(1.0, np.abs(s).max() * n) * max(1.0, (n / 60.0) ** 3):
                     ck.violation(dict(site="daun", degree=3, clause="projection=abel-integral"), dict(n=n, i=i, data=s.tolist()),
                                  f"daun degree 3: forward(data)[{i}] = {fwd[i]:.12g}, Abel integral of the clamped cubic spline = {want:.12g}")
     # ---------------- basex: rho_k formula and chi_k = Abel(rho_k)
